@@ -8,7 +8,7 @@ import itertools
 
 from .. import core
 from . import engine as H
-from .engine import FUNCS, SimTransformer, canon, plain, to_token
+from .engine import FUNCS, SimParallel, SimTransformer, canon, plain, to_token
 
 from streamflow.core.utils import compare_tags
 from streamflow.core.workflow import Status, Token, Workflow
@@ -87,6 +87,7 @@ class Plan:
         self.scatters = {}
         self.inputs = []
         self.fail = None
+        self.empty_ports = []
 
     def describe(self):
         return {
@@ -122,10 +123,29 @@ def generate(t, max_nodes=10, allow_fail=False, ops_enabled=None) -> Plan:
         s = new_stream((), {"0": v}, None)
         plan.inputs.append((s.name, v))
     nnodes = 1 + t.draw(max_nodes, "n.nodes")
-    ops = ops_enabled or ("xf1", "xf1", "xf2", "scatter", "scatter", "gather", "gather", "dot", "cart", "cond")
+    ops = ops_enabled or ("xf1", "xf1", "xf2", "scatter", "scatter", "gather", "gather", "dot", "cart", "cart", "gather2", "cond")
     budget_tokens = 60
-    for _ in range(nnodes):
-        op = ops[t.draw(len(ops), "op")]
+    # Optional scripted prefix (swarm style): shapes in which arrival order matters most, so they
+    # are common instead of rare; random nodes follow.
+    script = ((), ("scatter", "xf1s", "xf1s", "dot", "gather"),
+              ("scatter", "scatter", "xf1s", "xf1s", "cart", "gather2"))[t.draw(3, "template")] if ops_enabled is None else ()
+    if script:
+        big = [0, 1, 2, 3, 4, 5, 6, 7, 8, 9, 10] if script[-1] == "gather" else [0, 1, 2]
+        plan.inputs[0] = (plan.inputs[0][0], big)
+        plan.streams[plan.inputs[0][0]].expected = {"0": big}
+    for step_i in range(nnodes + len(script)):
+        op = script[step_i] if step_i < len(script) else ops[t.draw(len(ops), "op")]
+        if op == "xf1s":
+            # transformer on the most recent scattered stream that has no consumer yet
+            cs = [x for x in plan.streams.values() if x.fam and x.fam[0] != "cart" and x.consumers == 0]
+            if cs:
+                s = cs[0]
+                nid = f"n{len(plan.nodes)}"
+                exp = {tag: FUNCS["wrap"](f"/{nid}", [v]) for tag, v in s.expected.items()}
+                o = new_stream(s.fam, exp, nid)
+                s.consumers += 1
+                plan.nodes.append({"id": nid, "op": "xf", "fn": "wrap", "par": 1, "ins": {"a": s.name}, "outs": {"o": o.name}})
+            continue
         streams = list(plan.streams.values())
         nid = f"n{len(plan.nodes)}"
         if op == "xf1":
@@ -134,7 +154,7 @@ def generate(t, max_nodes=10, allow_fail=False, ops_enabled=None) -> Plan:
             exp = {tag: FUNCS[fn](f"/{nid}", [v]) for tag, v in s.expected.items()}
             o = new_stream(s.fam, exp, nid)
             s.consumers += 1
-            plan.nodes.append({"id": nid, "op": "xf", "fn": fn, "ins": {"a": s.name}, "outs": {"o": o.name}})
+            plan.nodes.append({"id": nid, "op": "xf", "fn": fn, "par": t.draw(2, "par"), "ins": {"a": s.name}, "outs": {"o": o.name}})
         elif op == "xf2":
             s = streams[t.draw(len(streams), "pick")]
             same = [x for x in streams if x.fam == s.fam and set(x.expected) == set(s.expected)]
@@ -144,7 +164,7 @@ def generate(t, max_nodes=10, allow_fail=False, ops_enabled=None) -> Plan:
             o = new_stream(s.fam, exp, nid)
             s.consumers += 1
             s2.consumers += 1
-            plan.nodes.append({"id": nid, "op": "xf", "fn": fn, "ins": {"a": s.name, "b": s2.name}, "outs": {"o": o.name}})
+            plan.nodes.append({"id": nid, "op": "xf", "fn": fn, "par": t.draw(2, "par"), "ins": {"a": s.name, "b": s2.name}, "outs": {"o": o.name}})
         elif op == "scatter":
             cands = [x for x in streams if _all_lists(x) and len(x.fam) < 3 and not (x.fam and x.fam[0] == "cart")
                      and sum(len(v) for v in x.expected.values()) <= budget_tokens]
@@ -158,7 +178,11 @@ def generate(t, max_nodes=10, allow_fail=False, ops_enabled=None) -> Plan:
             s.consumers += 1
             plan.nodes.append({"id": nid, "op": "scatter", "ins": {"a": s.name}, "outs": {"o": o.name}})
         elif op == "gather":
-            cands = [x for x in streams if x.fam and x.fam[0] != "cart"]
+            # only streams that still carry every tag their scatter produced (a dot product with a
+            # sparser stream drops tags; gathering a partial set is not generated)
+            cands = [x for x in streams if x.fam and x.fam[0] != "cart"
+                     and all(f"{pt}.{i}" in x.expected for pt, n in plan.scatters[x.fam[-1]]["sizes"].items() for i in range(n))
+                     and len(x.expected) == sum(plan.scatters[x.fam[-1]]["sizes"].values())]
             if not cands:
                 continue
             s = cands[t.draw(len(cands), "pick")]
@@ -212,6 +236,19 @@ def generate(t, max_nodes=10, allow_fail=False, ops_enabled=None) -> Plan:
             a.consumers += 1
             b.consumers += 1
             plan.nodes.append({"id": nid, "op": "cart", "ins": {"a": a.name, "b": b.name}, "outs": {"a": o1.name, "b": o2.name}})
+        elif op == "gather2":
+            # one GatherStep(depth=2) over a cross product, size unknown (the size port only
+            # terminates): the step gathers every key when its inputs terminate
+            cands = [x for x in streams if x.fam and x.fam[0] == "cart"]
+            if not cands:
+                continue
+            s = cands[t.draw(len(cands), "pick")]
+            groups = {}
+            for tag in _sorted_tags(s.expected):
+                groups.setdefault(".".join(tag.split(".")[:-2]), []).append(s.expected[tag])
+            o = new_stream(s.fam[1][:-1], groups, nid)
+            s.consumers += 1
+            plan.nodes.append({"id": nid, "op": "gather2", "ins": {"a": s.name}, "outs": {"o": o.name}})
         elif op == "cond":
             s = streams[t.draw(len(streams), "pick")]
             modulo = 2 + t.draw(2, "mod")
@@ -245,7 +282,7 @@ def build(plan: Plan, wf: Workflow):
         outs = {k: plan.streams[v] for k, v in n["outs"].items()}
         if n["op"] == "xf":
             fail_tags = [plan.fail["tag"]] if plan.fail and plan.fail["node"] == nid else []
-            st = wf.create_step(SimTransformer, name=f"/{nid}", fn=n["fn"], fail_tags=fail_tags)
+            st = wf.create_step(SimParallel if n.get("par") else SimTransformer, name=f"/{nid}", fn=n["fn"], fail_tags=fail_tags)
             for k, s in ins.items():
                 st.add_input_port(k, s.port)
             st.add_output_port("o", outs["o"].port)
@@ -264,6 +301,12 @@ def build(plan: Plan, wf: Workflow):
             size_ports[nid] = sp
         elif n["op"] == "gather":
             st = wf.create_step(GatherStep, name=f"/{nid}-gather", size_port=size_ports[n["scatter"]])
+            st.add_input_port("a", ins["a"].port)
+            st.add_output_port("a", outs["o"].port)
+        elif n["op"] == "gather2":
+            sp = wf.create_port()
+            plan.empty_ports.append(sp)
+            st = wf.create_step(GatherStep, name=f"/{nid}-gather2", size_port=sp, depth=2)
             st.add_input_port("a", ins["a"].port)
             st.add_output_port("a", outs["o"].port)
         elif n["op"] in ("dot", "cart"):
@@ -287,6 +330,8 @@ def build(plan: Plan, wf: Workflow):
 async def inject_inputs(plan: Plan, ctx):
     for name, v in plan.inputs:
         await H.inject(plan.streams[name].port, [to_token(v, "0")], ctx)
+    for p in plan.empty_ports:
+        p.put(TerminationToken())
 
 
 def port_multiset(port):
@@ -310,7 +355,11 @@ def _norm(v):
 TERMINAL = (Status.COMPLETED, Status.SKIPPED, Status.FAILED, Status.CANCELLED)
 
 
-def check_all_terminated(wf: Workflow, where: str):
+def check_all_terminated(wf: Workflow, where: str, failed: bool = False):
+    """Normal path: every step output port ENDS with a termination token. Failing path (the
+    statement only says every step ends terminated and nothing hangs): the port must CONTAIN a
+    termination token - a cancelled step whose body was mid-way through a database write may
+    still append its last token after executor.close() terminated it."""
     from ..core import Violation
 
     for st in wf.steps.values():
@@ -319,7 +368,11 @@ def check_all_terminated(wf: Workflow, where: str):
                             f"{where}: step {st.name} terminated={st.terminated} status={st.status.name}",
                             signature=f"step_not_terminated:{where}:{type(st).__name__}")
         for pname, port in st.get_output_ports().items():
-            if not port.token_list or not isinstance(port.token_list[-1], TerminationToken):
+            if failed:
+                ok = any(isinstance(x, TerminationToken) for x in port.token_list)
+            else:
+                ok = bool(port.token_list) and isinstance(port.token_list[-1], TerminationToken)
+            if not ok:
                 raise Violation("port_not_terminated",
                                 f"{where}: output port {pname} of step {st.name} has no final termination token: {H.port_contents(port)[-3:]}",
                                 signature=f"port_not_terminated:{where}:{type(st).__name__}")
